@@ -221,7 +221,7 @@ func Main(e Engine) {
 		worker    = flag.Bool("worker", false, "internal")
 		wid       = flag.Int("wid", 0, "internal")
 		scratch   = flag.String("scratch", os.TempDir(), "scratch directory for worker files")
-		caseTO    = flag.Duration("case-timeout", 5*time.Minute, "watchdog per case")
+		caseTO    = flag.Duration("case-timeout", 20*time.Minute, "watchdog per case (only harness-level hangs end here: deadlocks and runaway schedules inside a simulation are detected by the kernel; generous because a loaded machine slows a 25-step history with real analyzers down a lot)")
 		noMin     = flag.Bool("no-minimize", false, "do not minimise failures")
 		dumpDig   = flag.String("dump-digests", "", "worker: append 'index digest' lines to this file (determinism self-test)")
 	)
